@@ -11,7 +11,12 @@ components as a plain tuple `key`, its timeline position `order` and its calenda
                  operator dunders, properties); arguments come from small typed pools; EVERY sequence of <= 2 calls
                  (both on the same operand, and the second call on the result of the first) is executed and the deep
                  state of every operand compared with its baseline (private state first; if that moved, the public
-                 observable snapshot - all public properties recursively + repr - decides).
+                 observable snapshot - all public properties recursively + repr - decides).  Also: augmented-assignment and
+                 reflected operator routes with aliases (second name, list element, dict key), the iterator protocol.
+  numeric        every member documented to take a float (Duration factories and * / operators, Instant.from_julian_date)
+                 is called with int k and float(k) for a fixed k alphabet: results - and everything one more public call
+                 computes from them - must be equal, hash-equal, interchangeable as set/dict keys, identical in all public
+                 observations and in their internal numeric representation (also demanded of all equal alphabet pairs).
 """
 from __future__ import annotations
 
@@ -759,6 +764,11 @@ def _pair(acc, T, P, a, b, hashable):
             acc.violation("%s/hash-equal/%s" % (P, "same-object" if va is vb else "separately-built"),
                           "%s and %s are equal but hash to %d and %d" % (a.label, b.label, hash(va), hash(vb)), case)
     if exp and va is not vb:
+        rep = representation_mismatch(va, vb)
+        if rep:
+            acc.violation("%s/representation/separately-built" % P, "%s and %s are equal but keep different internal numeric types: %s"
+                          % (a.label, b.label, "; ".join(rep[:4])), case)
+    if exp and va is not vb:
         acc.count(nontrivial=1)
     elif not exp and sum(1 for i in range(len(a.key)) if a.key[i] != b.key[i]) == 1:
         acc.count(nontrivial=1)
@@ -1492,6 +1502,205 @@ def _trim(o):
     return s if len(s) < 600 else s[:600] + "..."
 
 
+# ------------------------------------------------------------------------------------------------ numeric-argument part
+
+import decimal as _decimal  # noqa: E402
+import fractions as _fractions  # noqa: E402
+
+_NUMERIC = (bool, int, float, complex, _decimal.Decimal, _fractions.Fraction)
+
+
+def _attrs(obj):
+    """(name, value) of every attribute stored on a pyoda object (__dict__ and __slots__)."""
+    out = []
+    d = getattr(obj, "__dict__", None)
+    if d:
+        out += list(d.items())
+    for klass in type(obj).__mro__:
+        for s in getattr(klass, "__slots__", ()) or ():
+            if isinstance(s, str) and s not in ("__dict__", "__weakref__"):
+                name = s if not (s.startswith("__") and not s.endswith("__")) else "_%s%s" % (klass.__name__.lstrip("_"), s)
+                try:
+                    out.append((name, getattr(obj, name)))
+                except AttributeError:
+                    pass
+    return out
+
+
+def representation_mismatch(a, b, path="", depth=0):
+    """Equal values built through different routes must keep the same internal numeric representation: walk the stored
+    attributes both objects have in common and list the paths where both hold numbers of DIFFERENT numeric types
+    (int vs float, int vs Decimal, ...).  Attributes present on one side only (lazy caches) are ignored."""
+    if isinstance(a, _NUMERIC) and isinstance(b, _NUMERIC):
+        return [] if type(a) is type(b) else ["%s: %s %r vs %s %r" % (path or "<value>", type(a).__name__, a, type(b).__name__, b)]
+    if depth > 6 or a is None or b is None or type(a) is not type(b):
+        return []
+    if isinstance(a, (tuple, list)):
+        out = []
+        for i, (x, y) in enumerate(zip(a, b)):
+            out += representation_mismatch(x, y, "%s[%d]" % (path, i), depth + 1)
+        return out
+    if not type(a).__module__.startswith("pyoda_time") or _is_opaque(a):
+        return []
+    da, db = dict(_attrs(a)), dict(_attrs(b))
+    out = []
+    for k in da:
+        if k in db:
+            out += representation_mismatch(da[k], db[k], "%s.%s" % (path, k) if path else k, depth + 1)
+    return out
+
+
+NUMERIC_KS = (0, 1, 2, -3, 7, 86_400, 2_451_545, 10**6)
+
+
+def _small_operand(cls):
+    """For scalar-like types (one numeric timeline component): the alphabet value of smallest non-zero magnitude, so that k times
+    it stays below 2^53 and float arithmetic with an integral float k is exact (rounding of large float products is not at issue)."""
+    for T in TYPES:
+        if T.cls is cls and T.entries and all(e.order is not None and len(e.order) == 1 and isinstance(e.order[0], int) for e in T.entries):
+            cand = [e for e in T.entries if e.order[0] != 0 and abs(e.order[0]) * max(abs(k) for k in NUMERIC_KS) < 2**53]
+            if cand:
+                return min(cand, key=lambda e: (abs(e.order[0]), e.order[0] < 0)).value
+    return None
+
+
+def float_members(cls, pools, tier, skipped):
+    """Public members (factories, methods, operators) with a parameter documented as accepting a float:
+    [(label, call(k) -> result)] with the other parameters filled from the pools."""
+    out = []
+    for name in dir(cls):
+        if name.startswith("_") and name not in DUNDERS:
+            continue
+        if name in DUNDERS and not _owner_is_pyoda(cls, name):
+            continue
+        try:
+            raw = inspect.getattr_static(cls, name)
+            attr = getattr(cls, name)
+            if isinstance(raw, property) or not callable(attr):
+                continue
+            sig = inspect.signature(attr)
+        except (AttributeError, TypeError, ValueError):
+            continue
+        is_static = isinstance(raw, (staticmethod, classmethod))
+        params = [p for p in sig.parameters.values() if p.kind in (p.POSITIONAL_ONLY, p.POSITIONAL_OR_KEYWORD)]
+        if not is_static:
+            params = params[1:]
+        fidx = [i for i, p in enumerate(params) if "float" in _split_union(str(p.annotation).strip("'\""))]
+        for fi in fidx:
+            others = []
+            ok = True
+            for i, p in enumerate(params):
+                if i == fi:
+                    others.append(None)
+                    continue
+                if p.default is not p.empty:
+                    others.append(p.default)
+                    continue
+                pool = [x for x in (pools.pool(p.annotation) or []) if not isinstance(x, _NUMERIC) and x is not None]
+                if not pool:
+                    ok = False
+                    break
+                others.append(_small_operand(type(pool[-1])) or pool[-1])
+            if not ok:
+                continue
+            recv = None if is_static else (_small_operand(cls) or (pools.by.get(cls.__name__) or [None])[-1])
+            if not is_static and recv is None:
+                continue
+
+            def call(k, name=name, fi=fi, others=others, recv=recv, is_static=is_static):
+                args = [k if i == fi else o for i, o in enumerate(others)]
+                return getattr(cls, name)(*args) if is_static else getattr(recv, name)(*args)
+            out.append(("%s(%s)" % (name, ", ".join("<k>" if i == fi else type(o).__name__ for i, o in enumerate(others))), call))
+    return out
+
+
+def numeric_worker(tname):
+    return _guarded("numeric", tname, _numeric_worker, tname)
+
+
+def _numeric_worker(tname, acc):
+    """The numeric type of an argument is not a component of the value: a member documented to take a float must give, for
+    int k and float(k), results that are equal, hash-equal, interchangeable as set/dict keys, identical in every public
+    observation and in their internal numeric representation - and so must everything computed from them by one more call."""
+    build_all()
+    T = TYPE_BY_NAME[tname]
+    pools = Pools("quick")
+    skipped = set()
+    P = "C12/%s/numeric-argument" % T.name
+    value_classes = {t.cls for t in TYPES}
+    members = float_members(T.cls, pools, "quick", skipped)
+    acc.note("float-taking members %s" % T.name, [m[0] for m in members])
+
+    def same(label, law_prefix, ri, rf, case, deep):
+        """Compare the int-route result ri with the float-route result rf."""
+        ei, ef = isinstance(ri, Exception), isinstance(rf, Exception)
+        if ei or ef:
+            if ei != ef:
+                acc.violation("%s/%s/%soutcome" % (P, label, law_prefix), "int argument gives %s, float argument gives %s" % (_trim(ri), _trim(rf)), case)
+            else:
+                acc.outcome("numeric: both routes refuse (%s / %s)" % (type(ri).__name__, type(rf).__name__))
+            return False
+        if type(ri) is not type(rf):
+            acc.violation("%s/%s/%sresult-type" % (P, label, law_prefix), "int argument gives a %s, float argument a %s" % (type(ri).__name__, type(rf).__name__), case)
+            return False
+        if type(ri) not in value_classes:
+            if observe(ri) != observe(rf) and not (isinstance(ri, float) and ri != ri and rf != rf):
+                acc.violation("%s/%s/%sresult" % (P, label, law_prefix), "int argument gives %s, float argument gives %s" % (_trim(observe(ri)), _trim(observe(rf))), case)
+                return False
+            return True
+        bad = []
+        eq = _quiet(lambda: (ri == rf, rf == ri, ri != rf))
+        if eq != (True, True, False):
+            bad.append(("equal", "==, reversed ==, != give %r" % (eq,)))
+        hi, hf = _quiet(lambda: hash(ri)), _quiet(lambda: hash(rf))
+        if isinstance(hi, Exception) != isinstance(hf, Exception) or (not isinstance(hi, Exception) and hi != hf):
+            bad.append(("hash", "hash of the int route: %s; of the float route: %s" % (_trim(hi), _trim(hf))))
+        elif not isinstance(hi, Exception):
+            look = _quiet(lambda: ({ri: "k"}.get(rf), rf in {ri}, ri in {rf}, len({ri, rf})))
+            if look != ("k", True, True, 1):
+                bad.append(("set-dict", "dict lookup / set membership / set size across the routes give %s" % _trim(look)))
+        oi, of = observe(ri), observe(rf)
+        if oi != of:
+            diff = [k for k in oi if isinstance(oi, dict) and isinstance(of, dict) and oi.get(k) != of.get(k)]
+            bad.append(("observation", "public observations differ in %r: %s vs %s" % (diff[:6], _trim({k: oi[k] for k in diff[:4]}), _trim({k: of.get(k) for k in diff[:4]}))))
+        si, sf = _quiet(lambda: str(ri)), _quiet(lambda: str(rf))
+        if _ADDR.sub("", repr(si)) != _ADDR.sub("", repr(sf)):
+            bad.append(("str", "str() gives %r vs %r" % (si, sf)))
+        rep = representation_mismatch(ri, rf)
+        if rep:
+            bad.append(("representation", "internal numeric representation differs: %s" % "; ".join(rep[:4])))
+        for law, what in bad:
+            acc.violation("%s/%s/%s%s" % (P, label, law_prefix, law), "%s: %s" % (case["call"], what), case)
+        return not bad
+
+    for label, call in members:
+        for k in NUMERIC_KS:
+            acc.count(states=1, transitions=2, evaluations=1)
+            case = {"type": T.name, "member": label, "k": k, "call": "%s with k = %d vs %r" % (label, k, float(k))}
+            ri = _quiet(lambda: call(k))
+            rf = _quiet(lambda: call(float(k)))
+            if not same(label, "", ri, rf, case, True):
+                continue
+            acc.outcome("numeric: int and float argument give interchangeable results")
+            if type(ri) not in value_classes:
+                continue
+            acc.count(nontrivial=1)
+            # one more call on both results: everything computed from them must agree as well
+            R = [t for t in TYPES if t.cls is type(ri)][0]
+            ci = calls_for(R.cls, ri, pools, "quick", skipped, 2) + operator_calls(R.cls, ri, pools, "quick", skipped, 2)
+            cf = calls_for(R.cls, rf, pools, "quick", skipped, 2) + operator_calls(R.cls, rf, pools, "quick", skipped, 2)
+            for (l1, t1, _o1), (l2, t2, _o2) in zip(ci, cf):
+                if l1 != l2 or l1.startswith("set:"):
+                    continue
+                acc.count(transitions=2, evaluations=1)
+                di, df = _quiet(t1), _quiet(t2)
+                if inspect.isgenerator(di) or inspect.isgenerator(df):
+                    di, df = _quiet(lambda: list(itertools.islice(di, 8))), _quiet(lambda: list(itertools.islice(df, 8)))
+                same(label, "derived:%s/" % l1.split("#")[0], di, df, dict(case, derived=l1), False)
+    acc.sample({"type": T.name, "float-taking members": [m[0] for m in members][:8], "k values": list(NUMERIC_KS)})
+    return acc
+
+
 # ------------------------------------------------------------------------------------------------ run / replay
 
 def _rot(xs, seed):
@@ -1520,6 +1729,9 @@ def run(ctx):
     if not only or "algebra" in only:
         for acc in pmap(algebra_worker, _rot([t.name for t in TYPES], seed), ctx.procs):
             ctx.merge_part("algebra", acc)
+    if not only or "numeric" in only:
+        for acc in pmap(numeric_worker, _rot([t.name for t in TYPES], seed), ctx.procs):
+            ctx.merge_part("numeric-argument", acc)
     if not only or "immutability" in only:
         jobs = []
         for T in TYPES:
